@@ -35,6 +35,7 @@ class EmptyRecordsTaint:
         self.fn = fn
         self.reports = []   # (node, msg)
         self.sources = 0
+        self.loop_exits = []
 
     def uses(self, e, tainted):
         for n in ast.walk(e):
@@ -78,6 +79,9 @@ class EmptyRecordsTaint:
                 return None
             elif isinstance(s, ast.Raise):
                 return None
+            elif isinstance(s, (ast.Break, ast.Continue)):
+                self.loop_exits[-1].append(set(tainted)) if self.loop_exits else None
+                return None
             elif isinstance(s, ast.If):
                 self.uses(s.test, tainted)
                 tb, fb = set(tainted), set(tainted)
@@ -95,9 +99,13 @@ class EmptyRecordsTaint:
                 else:
                     self.uses(s.test, tainted)
                 cur = set(tainted)
+                self.loop_exits.append([])
                 for _ in range(3):
                     out = self.block(s.body, cur)
                     cur = cur | (out or set())
+                    for ex in self.loop_exits[-1]:
+                        cur = cur | ex
+                self.loop_exits.pop()
                 tainted = cur
             elif isinstance(s, ast.Expr):
                 self.uses(s.value, tainted)
